@@ -171,8 +171,8 @@ namespace stdex
 #if defined(CTPG_VERIF) && defined(CTPG_VERIF_BOUNDS)
         constexpr const T& operator[](size_type idx) const { ::ctpg_verif::check(idx < N, "cvector::operator[] const"); return the_data[idx]; }
         constexpr T& operator[](size_type idx) { ::ctpg_verif::check(idx < N, "cvector::operator[]"); return the_data[idx]; }
-        constexpr void push_back(const T& v) { ::ctpg_verif::check(current_size < N, "cvector::push_back"); the_data[current_size++] = v; }
-        constexpr void emplace_back(T&& v) { ::ctpg_verif::check(current_size < N, "cvector::emplace_back"); the_data[current_size++] = std::move(v); }
+        constexpr void push_back(const T& v) { check_capacity(); the_data[current_size++] = v; }
+        constexpr void emplace_back(T&& v) { check_capacity(); the_data[current_size++] = std::move(v); }
         constexpr const T& front() const { return the_data[0]; }
         constexpr T& front() { return the_data[0]; }
         constexpr T& back() { ::ctpg_verif::check(current_size > 0 && current_size <= N, "cvector::back"); return the_data[current_size - 1]; }
